@@ -137,7 +137,8 @@ pub fn shape_class(abi: &Abi, ty: &Type, depth: usize) -> String {
         Shape::String => "s".into(),
         Shape::Handle(k) => format!("h{}", format!("{k:?}").to_lowercase()),
         Shape::List(t) => format!("l<{}>", shape_class(abi, &t, depth + 1)),
-        Shape::FixedList(t, _) => format!("fl<{}>", shape_class(abi, &t, depth + 1)),
+        // fixed-length lists whose elements own heap data are lowered by a different path: own class
+        Shape::FixedList(t, _) => format!("{}<{}>", if abi.contains_heap(&t) { "flh" } else { "fl" }, shape_class(abi, &t, depth + 1)),
         Shape::Map(k, v) => format!("m<{},{}>", shape_class(abi, &k, depth + 1), shape_class(abi, &v, depth + 1)),
         Shape::Record(fs) => {
             let mut m: Vec<String> = fs.iter().map(|f| shape_class(abi, f, depth + 1)).collect();
@@ -254,4 +255,68 @@ pub fn count_nodes(v: &Val, lists: &mut u64, elems: &mut u64, strings: &mut u64,
         Val::Variant(_, Some(p)) => count_nodes(p, lists, elems, strings, maps),
         _ => {}
     }
+}
+
+/// Class of the smallest typed sub-value that contains every difference between
+/// two canonical texts (for violation signatures: the *mismatching* part, not
+/// the whole parameter).  A differing leaf is reported with its parent
+/// constructor, e.g. `l<n>`, `flh<s>`, `r(s)`.
+pub fn diff_class(abi: &Abi, ty: &Type, a: &crate::norm::Node, b: &crate::norm::Node) -> String {
+    fn go(abi: &Abi, ty: &Type, a: &crate::norm::Node, b: &crate::norm::Node, parent: Option<&Type>) -> String {
+        use crate::norm::Node;
+        let here = |parent: Option<&Type>| match parent {
+            Some(p) if !matches!(abi.shape(ty), Shape::Record(_) | Shape::Variant(..) | Shape::List(_) | Shape::FixedList(..) | Shape::Map(..)) => shape_class(abi, p, 2),
+            _ => shape_class(abi, ty, 1),
+        };
+        match (abi.shape(ty), a, b) {
+            (Shape::Record(fs), Node::Rec(x), Node::Rec(y)) if x.len() == y.len() && x.len() == fs.len() => {
+                let d: Vec<usize> = (0..x.len()).filter(|i| x[*i] != y[*i]).collect();
+                if d.len() == 1 {
+                    return go(abi, &fs[d[0]], &x[d[0]], &y[d[0]], Some(ty));
+                }
+                here(parent)
+            }
+            (Shape::List(et), Node::List(x), Node::List(y)) | (Shape::FixedList(et, _), Node::List(x), Node::List(y)) if x.len() == y.len() => {
+                let d: Vec<usize> = (0..x.len()).filter(|i| x[*i] != y[*i]).collect();
+                if let Some(i) = d.first() {
+                    // all differing elements have the same type: descend into the first
+                    return go(abi, &et, &x[*i], &y[*i], Some(ty));
+                }
+                here(parent)
+            }
+            (Shape::Variant(cs, _), Node::Var(t1, Some(p1)), Node::Var(t2, Some(p2))) if t1 == t2 => {
+                let idx: usize = t1.trim_start_matches('#').parse().unwrap_or(usize::MAX);
+                match cs.get(idx) {
+                    Some(Some(t)) => go(abi, t, p1, p2, Some(ty)),
+                    _ => here(parent),
+                }
+            }
+            _ => here(parent),
+        }
+    }
+    go(abi, ty, a, b, None)
+}
+
+/// If a class mentions a fixed-length list with heap elements (`flh<..>`, a
+/// separately generated lowering path), reduce the class to that part: keeps
+/// signatures of defects of that path stable across enclosing shapes.
+pub fn focus(class: &str) -> String {
+    if let Some(i) = class.find("flh<") {
+        let bytes = class.as_bytes();
+        let mut depth = 0;
+        for j in i + 3..bytes.len() {
+            match bytes[j] {
+                b'<' => depth += 1,
+                b'>' => {
+                    depth -= 1;
+                    if depth == 0 {
+                        return class[i..=j].to_string();
+                    }
+                }
+                _ => {}
+            }
+        }
+        return class[i..].to_string();
+    }
+    class.to_string()
 }
